@@ -283,6 +283,29 @@ impl BlockchainSyncState {
         self.remove_fetched_blocks();
     }
 
+    /// Mark the block as fetched from the given peer. Requests for the same block which are
+    /// still in flight with other peers stay counted against those peers until they complete,
+    /// entries which were not requested yet are dropped since the block doesn't need fetching again.
+    pub fn mark_as_fetched_from_peer(&mut self, hash: SaitoHash, peer_index: PeerIndex) {
+        debug!(
+            "marking block : {:?} as fetched from peer : {:?}",
+            hash.to_hex(),
+            peer_index
+        );
+        for (index, deq) in self.blocks_to_fetch.iter_mut() {
+            for block_data in deq {
+                if hash.eq(&block_data.block_hash)
+                    && (*index == peer_index
+                        || !matches!(block_data.status, BlockStatus::Fetching))
+                {
+                    block_data.status = BlockStatus::Fetched;
+                }
+            }
+        }
+
+        self.remove_fetched_blocks();
+    }
+
     /// Removes all the entries related to fetched blocks and removes any empty collections from memory
     ///
     /// # Arguments
@@ -377,6 +400,26 @@ impl BlockchainSyncState {
         trace!("removing entry : {:?} from peer", block_hash.to_hex());
         for (_, deq) in self.blocks_to_fetch.iter_mut() {
             deq.retain(|block_data| block_data.block_hash != block_hash);
+        }
+
+        self.blocks_to_fetch.retain(|_, deq| !deq.is_empty());
+    }
+
+    /// Removes the entries of a block which doesn't need to be fetched anymore, except the ones
+    /// whose request is still in flight : those keep counting against their peer's quota until
+    /// the request completes. `not_dispatched_for` names the peer for which the entry was selected
+    /// but never sent out, so it is removed regardless of its status.
+    pub fn remove_entry_unless_in_flight(
+        &mut self,
+        block_hash: SaitoHash,
+        not_dispatched_for: Option<PeerIndex>,
+    ) {
+        for (peer_index, deq) in self.blocks_to_fetch.iter_mut() {
+            deq.retain(|block_data| {
+                block_data.block_hash != block_hash
+                    || (matches!(block_data.status, BlockStatus::Fetching)
+                        && Some(*peer_index) != not_dispatched_for)
+            });
         }
 
         self.blocks_to_fetch.retain(|_, deq| !deq.is_empty());
